@@ -326,3 +326,28 @@ func Check(label string, c bool) {
 // StageProto hands the engine the message that the staged os.ReadFile / protojson.Unmarshal pair
 // "decodes" (natively the harness writes a real JSON file instead).
 func StageProto(m interface{}) {}
+
+// FilePath / SetFile: files the code under test reads. Engine: abstract file table; natively
+// real files in a temporary directory.
+var fileDir string
+
+func FilePath(name string) string {
+	if fileDir == "" {
+		d, err := os.MkdirTemp("", "verif-files-")
+		if err != nil {
+			panic(err)
+		}
+		fileDir = d
+	}
+	return fileDir + "/" + name
+}
+
+func SetFile(path, content string, readable bool) {
+	if !readable {
+		_ = os.Remove(path)
+		return
+	}
+	if err := os.WriteFile(path, []byte(content), 0o600); err != nil {
+		panic(err)
+	}
+}
